@@ -7,6 +7,7 @@ NOTES = {
  "C20-B": "not reported (quick, thorough): Close freezes Err before the teardown; only failures that fire *after* Close began are lost, and the property (and the engine's documentation) allows those to be dropped, so no sound black-box oracle separates it from the unchanged tree",
  "C15-G": "not reported: needs an unlink inside FileSystemDataStore.Update to fail (a fault below the store-call level, outside every listed quantifier; the filesystem hook only observes)",
  "C02-H": "not reported by C02 (its quantifier has no faults); reported in the quick tier by C03 (pool phase, uneven blocks) and C19",
+ "C24-J": "not reported by C24 (the MetaStore's own copy of the block metadata is what gets widened, and C24 computes the expected pruning from the metadata the MetaStore serves); reported in the quick tier by C13 (a merge that did not commit must leave the served block metadata unchanged) and C17 (MetaStore metadata vs the file's own footer)",
  "C15-F": "not reported by C15 (needs the writer's .tmp to vanish before Close, which is not a crash point); reported in the quick tier by C16 (`failclose` op: Close returns nil for a file that was never published)",
 }
 rows = {}
@@ -28,8 +29,8 @@ def idea(seed):
     return ""
 out = []
 out.append("# Seeded changes: what the checks report\n")
-out.append("Eight realistic changes per property: `Cxx-A/B` (first session), `Cxx-C/D`, `Cxx-E/F` and `Cxx-G/H` (second session; fresh sub-agents that were given only the property text — from E on also its anchored mechanisms, for G/H the hint that the obvious sites were taken — and a scratch worktree). Each compiles, passes the pinned suite and ships a demonstration test that fails with the change and passes without it (`tools/confirm_seed.sh`; see each `NOTES.md` / `meta.json`). `tools/seedtest2.sh <patch> Cxx` applies one to a scratch worktree of `/repo` and points the check at it; `/repo` itself is never touched.\n")
-out.append("Last full sweep: %s, quick tier, `VERIF_SEED=1`, each seed against the check of the property it was written for (`tools/sweep_seeds.sh`; wall clock of the whole check, five sweeps in parallel).\n" % datetime.date.today().isoformat())
+out.append("Ten realistic changes per property: `Cxx-A/B` (first session), `Cxx-C/D`, `Cxx-E/F`, `Cxx-G/H` and `Cxx-I/J` (second session; fresh sub-agents that were given only the property text — from E on also its anchored mechanisms, for G/H and I/J the hint that the obvious sites were taken — and a scratch worktree). Each compiles, passes the pinned suite and ships a demonstration test that fails with the change and passes without it (`tools/confirm_seed.sh`; see each `NOTES.md` / `meta.json`). `tools/seedtest2.sh <patch> Cxx` applies one to a scratch worktree of `/repo` and points the check at it; `/repo` itself is never touched.\n")
+out.append("Last full sweep: %s, quick tier, `VERIF_SEED=1`, each seed against the check of the property it was written for (`tools/sweep_seeds.sh`; wall clock of the whole check, six sweeps in parallel).\n" % datetime.date.today().isoformat())
 out.append("| seed | own property's quick check | what the change is / note |\n|---|---|---|")
 hit = miss = na = 0
 for seed in sorted(rows):
